@@ -65,3 +65,11 @@ proof fn lemma_mask_determines(n: NullableInterval)
         NullableInterval::NotNull { values } => { let lo = values.lower->Boolean_0->Some_0; let hi = values.upper->Boolean_0->Some_0; assert(values.lower == ScalarValue::Boolean(Some(lo)) && values.upper == ScalarValue::Boolean(Some(hi))); }
     }
 }
+/// IS TRUE / IS FALSE / IS UNKNOWN on a single truth value (two-valued result: 4 = TRUE, 1 = FALSE)
+spec fn test3(which: int, a: int) -> int { if a == which { 4 } else { 1 } }
+spec fn can_test(which: int, ma: int, v: int) -> bool {
+    (has(ma, 1) && test3(which, 1) == v) || (has(ma, 2) && test3(which, 2) == v) || (has(ma, 4) && test3(which, 4) == v)
+}
+spec fn exact_test(which: int, ma: int, mr: int) -> bool {
+    has(mr, 1) == can_test(which, ma, 1) && has(mr, 2) == can_test(which, ma, 2) && has(mr, 4) == can_test(which, ma, 4)
+}
